@@ -42,6 +42,7 @@ def run_one(sd, props):
         env = dict(os.environ)
         env["DASHU_REPO"] = dst
         env["VERIF_OUT"] = os.path.join(tmp, "out")
+        env["VERIF_CACHE"] = os.path.join(tmp, "cache")     # facts of the scratch tree die with it
         caught = {}
         for prop in props:
             q = subprocess.run([os.path.join(VERIF, "check"), prop, "--tier", "quick"], cwd=VERIF, env=env, stdout=subprocess.PIPE, stderr=subprocess.STDOUT, text=True)
